@@ -197,7 +197,7 @@ def check_files(ctx, status, args, got, payload):
 def direct_cases(ctx):
     rng = ctx.rng
     lines, pend = [], []
-    for k in range(ctx.n(160, 900)):
+    for k in range(ctx.n(160, 6000)):
         n = rng.choice([6, 9, 20, 60])
         lead = rng.choice([0, 0, 1, 2, 4])
         trail = rng.choice([0, 0, 1, 3])
@@ -237,7 +237,7 @@ def direct_cases(ctx):
 def pipeline_cases(ctx):
     rng = ctx.rng
     import h5py
-    for k in range(ctx.n(4, 20)):
+    for k in range(ctx.n(4, 80)):
         fmt = rng.choice(["klmGac", "podGac"])
         n = 16
         start_ms = ydm_to_ms(2002, 187, 68700000) if fmt == "klmGac" else ydm_to_ms(2000, 322, 3600000)
